@@ -126,3 +126,180 @@ HARNESS = {
     f'{R}:_merge': {'cases': _merge_cases, 'check': _check_merge,
         'bound': 'all tuples of <= 3 lists over permutations of subsets of {A,B,C}, against the c3_merge spec function'},
 }
+
+
+# ---- model.py side: real projects built from generated class hierarchies, compared with CPython ----------------
+M = 'pydoctor/model.py'
+MEMBERS = ['m', 'n']
+
+
+def _dfs(bases, i):
+    out = [i]
+    for b in bases[i]:
+        out.extend(_dfs(bases, b))
+    return out
+
+
+def _model_cases(tier, seed):
+    rnd = random.Random(seed + 3)
+    hs = list(_hierarchies(4))
+    n_plain = 0
+    for h in hs:
+        py = _cpython(h)
+        top = len(h) - 1
+        interesting = py[top] is not None and [x for k, x in enumerate(_dfs(h, top)) if x not in _dfs(h, top)[:k]] != py[top]
+        if interesting:
+            # depth-first order differs from the MRO: every placement of member m over the classes
+            pats = list(itertools.product([False, True], repeat=len(h)))
+            if tier == 'quick':
+                pats = [p for p in pats if sum(p) == 2] + [tuple([True] * len(h))]
+            for p in pats:
+                yield {'bases': h, 'defs': {'m': list(p), 'n': [rnd.random() < 0.5 for _ in h]},
+                       'docs': {'m': [rnd.random() < 0.6 for _ in h], 'n': [rnd.random() < 0.6 for _ in h]},
+                       'split': rnd.random() < 0.4, 'generic': False}
+        else:
+            n_plain += 1
+            if tier == 'quick' and n_plain % 3:
+                continue
+            yield {'bases': h, 'defs': {mem: [rnd.random() < 0.5 for _ in h] for mem in MEMBERS},
+                   'docs': {mem: [rnd.random() < 0.6 for _ in h] for mem in MEMBERS},
+                   'split': rnd.random() < 0.4, 'generic': False}
+
+
+def _source(case):
+    """-> list of (modname, text) ; with split=True the classes alternate between two modules importing each other's names"""
+    bases, defs, docs = case['bases'], case['defs'], case['docs']
+    mods = {'hmod': [], 'hmod2': []}
+    where = {}
+    for i, bs in enumerate(bases):
+        mod = 'hmod2' if (case['split'] and i % 2) else 'hmod'
+        where[i] = mod
+    texts = {}
+    for mod in mods:
+        lines = ['from typing import Generic, TypeVar', 'T = TypeVar("T")']
+        for i, bs in enumerate(bases):
+            if where[i] != mod:
+                continue
+            for b in bs:
+                if where[b] != mod:
+                    lines.append(f'from {where[b]} import C{b}')
+        for i, bs in enumerate(bases):
+            if where[i] != mod:
+                continue
+            bl = [f'C{b}' for b in bs]
+            lines.append(f'class C{i}({", ".join(bl)}):' if bl else f'class C{i}:')
+            body = []
+            for mem in MEMBERS:
+                if defs[mem][i]:
+                    body.append(f'    def {mem}(self):')
+                    body.append(f'        "doc of C{i}.{mem}"' if docs[mem][i] else '        pass')
+            lines.extend(body or ['    pass'])
+        texts[mod] = '\n'.join(lines) + '\n'
+    return texts, where
+
+
+def _check_model(case):
+    from pydoctor import model
+    from replay import fixtures
+    texts, where = _source(case)
+    # CPython oracle
+    ns = {}
+    classes = {}
+    try:
+        import types, sys
+        mods = {}
+        for name in texts:
+            mods[name] = types.ModuleType(name)
+        # execute in dependency order: class i only depends on earlier classes, so interleave by class index is
+        # not possible with two modules importing each other; build the classes directly instead
+        for i, bs in enumerate(case['bases']):
+            d = {}
+            for mem in MEMBERS:
+                if case['defs'][mem][i]:
+                    def f(self):
+                        pass
+                    f.__doc__ = f'doc of C{i}.{mem}' if case['docs'][mem][i] else None
+                    f.__name__ = mem
+                    d[mem] = f
+            classes[i] = type(f'C{i}', tuple(classes[b] for b in bs), d)
+    except TypeError:
+        classes = None
+    system = fixtures.build_system([(n, t, False) for n, t in sorted(texts.items())])
+    for i, bs in enumerate(case['bases']):
+        c = system.allobjects.get(f'{where[i]}.C{i}')
+        if c is None:
+            return {'observed': f'class C{i} missing', 'required': 'documented'}
+        if classes is None:
+            continue
+        py = classes.get(i)
+        if py is None:
+            continue
+        want = [k.__name__ for k in py.__mro__ if k is not object]
+        got = [k.name for k in c.mro()]
+        if got != want:
+            return {'observed': f'C{i}.mro() = {got}', 'required': f'Python: {want}', 'class': 'mro'}
+        if c.mro()[0] is not c:
+            return {'observed': 'mro()[0] is not the class', 'required': 'linearisation starts with the class itself'}
+        for mem in MEMBERS:
+            # attribute lookup along the MRO
+            owner = next((k for k in py.__mro__ if mem in vars(k)), None)
+            f = c.find(mem)
+            if (owner is None) != (f is None) or (f is not None and f.parent.name != owner.__name__):
+                return {'observed': f'C{i}.find({mem}) -> {f.parent.name if f else None}',
+                        'required': f'defined by {owner.__name__ if owner else None}', 'class': 'find'}
+            own = c.contents.get(mem)
+            if own is not None:
+                srcs = [s.parent.name for s in own.docsources()]
+                wsrc = [k.__name__ for k in py.__mro__ if mem in vars(k)]
+                if srcs != wsrc:
+                    return {'observed': f'C{i}.{mem}.docsources() = {srcs}', 'required': f'{wsrc}', 'class': 'docsources'}
+                doc, src = model.get_docstring(own)
+                # what attribute lookup along the MRO yields (inspect.getdoc's rule for methods)
+                wdoc = next((vars(k)[mem].__doc__ for k in py.__mro__ if mem in vars(k) and vars(k)[mem].__doc__), None)
+                if doc != wdoc:
+                    return {'observed': f'get_docstring(C{i}.{mem}) = {doc!r}', 'required': f'inspect.getdoc: {wdoc!r}',
+                            'class': 'docstring'}
+    return None
+
+
+def _incons_cases(tier, seed):
+    yield {'src': 'class A: pass\nclass B(A): pass\nclass X(A, B): pass\nclass Y(X): pass\nclass Z: pass\n'}
+    yield {'src': 'class A: pass\nclass B: pass\nclass P(A, B): pass\nclass Q(B, A): pass\nclass R(P, Q): pass\n'}
+    yield {'src': 'class A(B): pass\nclass B(A): pass\nclass C: pass\n'}
+
+
+def _check_incons(case):
+    """Python rejects the hierarchy: pydoctor reports it for that class (section mro) and still documents it"""
+    import io, contextlib
+    from replay import fixtures
+    buf = io.StringIO()
+    with contextlib.redirect_stdout(buf):
+        try:
+            system = fixtures.build_system([('inc', case['src'], False)], quiet=False)
+        except BaseException as ex:  # noqa
+            return {'observed': f'build raised {type(ex).__name__}: {ex}', 'required': 'report and continue'}
+    ns = {}
+    bad = []
+    for line in case['src'].splitlines():
+        try:
+            exec(line, ns)
+        except (TypeError, NameError):
+            bad.append(line.split()[1].split('(')[0].rstrip(':'))
+    mod = system.allobjects['inc']
+    for name in [l.split()[1].split('(')[0].rstrip(':') for l in case['src'].splitlines()]:
+        c = mod.contents.get(name)
+        if c is None:
+            return {'observed': f'{name} not documented', 'required': 'still documented'}
+        if not c.mro() or c.mro()[0] is not c:
+            return {'observed': f'{name}.mro() = {[k.name for k in c.mro()]}', 'required': 'starts with the class itself'}
+    warned = [n for n in bad if f'inc.{n}' in buf.getvalue() or 'Cannot compute' in buf.getvalue() or 'Cycle' in buf.getvalue()]
+    if bad and not system.parse_errors and 'mro' not in str(system.violations) and not warned:
+        return {'observed': f'no report for {bad}; output {buf.getvalue()[:200]!r}', 'required': 'inconsistency reported'}
+    return None
+
+
+HARNESS[f'{M}:Class.mro'] = {'cases': _model_cases, 'check': _check_model,
+    'covers': [f'{M}:Class.find', f'{M}:Inheritable.docsources', f'{M}:get_docstring', f'{M}:compute_mro', f'{M}:Class._init_mro'],
+    'bound': '120 (1500) hierarchies of <= 4 classes with members m/n defined and documented at random levels, one or two modules, against CPython type()/inspect.getdoc'}
+HARNESS[f'{M}:Class._init_mro'] = {'cases': _incons_cases, 'check': _check_incons,
+    'bound': '3 inconsistent / cyclic hierarchies'}
